@@ -48,6 +48,16 @@ def run_more(ctx):
             ctx.fail("lex-reference", "Lexer gives %s, reference lexer %s" % (lex_out[lbase + k][:200], ref[:200]), [lc[k]], [lex_out[lbase + k][:1000]], ref[:1000])
     lex_of = lambda k: lex_out[lbase + k]
 
+    # error accessors (LexerError / ReaderError position, kind, into_kind, Display): class + offset inside the input
+    ec = ["bl.errapi\t%s" % hexs(d) for d in datas]
+    ei, _ = ctx.correspond("error_api", ec, nontrivial=lambda c, i: "ERR" in i)
+    for j in range(len(ec)):
+        g = ei[len(ei) - len(ec) + j]
+        ends = lex_of(j).split("|")[1]
+        want = "END END" if ends == "END" else "%s:1 %s:1" % (ends, ends)
+        if g != want:
+            ctx.fail("error-api", "error accessors: %s (lexer run ends with %s)" % (g, ends), [ec[j]], [g], want)
+
     # ------------------------------------------------------------ the refuted round-trip witnesses, on the code
     wit = []   # (token spec text, expected bytes)
     body = B.enc(("Q", b"a" * 65532))                     # 65536 bytes, itself one string token
